@@ -511,7 +511,155 @@ SPECS = {
 }
 
 
+# ------------------------------------------------------------------------------------------------------
+# validation predicates (C16, C14): special-purpose, shape-checked extraction.  The statements must have exactly the
+# expected shape (compared after ast.unparse with the numeric tolerances replaced by holes); the tolerances found in
+# the source become exact rational constants of the generated file.
+from fractions import Fraction
+
+
+def _kw_tolerances(call, fail):
+    """rel_tol / abs_tol keywords of a math.isclose call as exact decimal rationals (defaults 1e-9 / 0)"""
+    tol = {"rel_tol": Fraction(1, 10 ** 9), "abs_tol": Fraction(0)}
+    for kw in call.keywords:
+        if kw.arg not in tol or not isinstance(kw.value, ast.Constant) or not isinstance(kw.value.value, (int, float)):
+            fail(f"unexpected keyword in isclose: {ast.unparse(kw)}")
+        tol[kw.arg] = Fraction(repr(kw.value.value))
+    return tol
+
+
+def _q(fr):
+    return f"(({fr.numerator}) # {fr.denominator})" if fr.numerator < 0 else f"({fr.numerator} # {fr.denominator})"
+
+
+def _find_func(tree, cls, name, relpath):
+    for n in ast.walk(tree):
+        if isinstance(n, ast.ClassDef) and n.name == cls:
+            for m in n.body:
+                if isinstance(m, ast.FunctionDef) and m.name == name:
+                    return m
+    if cls is None:
+        for n in tree.body:
+            if isinstance(n, ast.FunctionDef) and n.name == name:
+                return n
+    raise Unsupported(f"{relpath}: {cls}.{name} not found")
+
+
+def _body(fn):
+    return [b for b in fn.body if not (isinstance(b, ast.Expr) and isinstance(b.value, ast.Constant))]
+
+
+def _raises(stmts):
+    return len(stmts) == 1 and isinstance(stmts[0], ast.Raise) and stmts[0].exc is not None
+
+
+def gen_validate():
+    out = [HEADER.format(src="qclib/gates/initialize.py, qclib/isometry.py, qclib/state_preparation/mixed.py, qclib/gates/util.py")
+           .replace("From QV Require Import GenLib.", "From Coq Require Import QArith.\nFrom QV Require Import GenLib ValidateLib.")]
+
+    def load(rel):
+        with open(os.path.join(REPO, rel), newline="") as fh:
+            return ast.parse(fh.read().replace("\r\n", "\n"))
+
+    # ---- Initialize._get_num_qubits
+    rel = "qclib/gates/initialize.py"
+    def fail(msg):
+        raise Unsupported(f"{rel}: Initialize._get_num_qubits no longer has the expected shape: {msg}")
+    b = _body(_find_func(load(rel), "Initialize", "_get_num_qubits", rel))
+    if len(b) != 4:
+        fail(f"{len(b)} statements instead of 4")
+    if ast.unparse(b[0]) != "self.num_qubits = log2(len(params))":
+        fail(ast.unparse(b[0]))
+    if not (isinstance(b[1], ast.If) and ast.unparse(b[1].test) == "self.num_qubits == 0 or not self.num_qubits.is_integer()"
+            and _raises(b[1].body) and not b[1].orelse):
+        fail(ast.unparse(b[1])[:120])
+    t = b[2]
+    if not (isinstance(t, ast.If) and isinstance(t.test, ast.UnaryOp) and isinstance(t.test.op, ast.Not)
+            and isinstance(t.test.operand, ast.Call) and ast.unparse(t.test.operand.func) == "isclose"
+            and [ast.unparse(a) for a in t.test.operand.args] == ["sum(np.absolute(params) ** 2)", "1.0"]
+            and _raises(t.body) and not t.orelse):
+        fail(ast.unparse(t)[:160])
+    tol = _kw_tolerances(t.test.operand, fail)
+    if ast.unparse(b[3]) != "self.num_qubits = int(self.num_qubits)":
+        fail(ast.unparse(b[3]))
+    out.append(f"(* Initialize._get_num_qubits: accepted iff len is a power of two >= 2 and isclose(sum |a|^2, 1, rel, abs) *)\n"
+               f"Definition init_rel_tol : Q := {_q(tol['rel_tol'])}.\nDefinition init_abs_tol : Q := {_q(tol['abs_tol'])}.\n"
+               f"Definition init_accept (len : N) (s : Q) : bool := len_ok len && qisclose s 1 init_rel_tol init_abs_tol.\n")
+
+    # ---- isometry._check_isometry (shape part)
+    rel = "qclib/isometry.py"
+    def fail2(msg):
+        raise Unsupported(f"{rel}: decompose/_check_isometry no longer has the expected shape: {msg}")
+    tree = load(rel)
+    dec = [ast.unparse(x) for x in _body(_find_func(tree, None, "decompose", rel))]
+    need = ["lines = iso.shape[0]", "cols = iso.shape[1]", "log_lines = log2(lines)", "log_cols = log2(cols)",
+            "_check_isometry(iso, log_lines, log_cols)"]
+    pos = [dec.index(x) if x in dec else -1 for x in need]
+    if -1 in pos or pos != sorted(pos):
+        fail2(f"decompose preamble {dec[:9]}")
+    cb = _body(_find_func(tree, None, "_check_isometry", rel))
+    tests = [ast.unparse(x.test) if isinstance(x, ast.If) and _raises(x.body) and not x.orelse else None for x in cb]
+    if tests != ["not log_lines.is_integer() or log_lines < 0", "not log_cols.is_integer() or log_cols < 0",
+                 "log_cols > log_lines", "not _is_isometry(iso, log_cols)"]:
+        fail2(f"_check_isometry tests {tests}")
+    out.append("(* isometry.decompose/_check_isometry, shape part: rows and cols are powers of two (log2 integral, >= 0) and\n"
+               "   log cols <= log rows; orthonormality is the numerical contract np.allclose(V^dagger V, I) *)\n"
+               "Definition iso_shape_accept (rows cols : N) : bool := pow2_ok rows && pow2_ok cols && (N.log2 cols <=? N.log2 rows)%N.\n")
+
+    # ---- MixedInitialize probability checks
+    rel = "qclib/state_preparation/mixed.py"
+    def fail3(msg):
+        raise Unsupported(f"{rel}: MixedInitialize.__init__ probability checks no longer have the expected shape: {msg}")
+    init = _find_func(load(rel), "MixedInitialize", "__init__", rel)
+    chain = None
+    for st in _body(init):
+        if isinstance(st, ast.If) and ast.unparse(st.test) == "probabilities is None":
+            chain = st
+    if chain is None:
+        fail3("if probabilities is None not found")
+    tests = []
+    node = chain
+    while True:
+        if len(node.orelse) == 1 and isinstance(node.orelse[0], ast.If):
+            node = node.orelse[0]
+            if not _raises(node.body):
+                fail3(ast.unparse(node)[:100])
+            tests.append(node.test)
+        else:
+            if node.orelse:
+                fail3("unexpected else branch")
+            break
+    ts = [ast.unparse(x) for x in tests]
+    if ts[:2] != ["any((i < 0.0 for i in probabilities))", "any((i > 1.0 for i in probabilities))"] or len(ts) != 3:
+        fail3(str(ts))
+    t3 = tests[2]
+    if not (isinstance(t3, ast.UnaryOp) and isinstance(t3.op, ast.Not) and isinstance(t3.operand, ast.Call)
+            and ast.unparse(t3.operand.func) == "isclose"
+            and [ast.unparse(a) for a in t3.operand.args] == ["sum(probabilities)", "1.0"]):
+        fail3(ts[2])
+    tol = _kw_tolerances(t3.operand, fail3)
+    out.append(f"(* MixedInitialize: probabilities accepted iff all in [0,1] and isclose(sum, 1, rel, abs) *)\n"
+               f"Definition mixed_rel_tol : Q := {_q(tol['rel_tol'])}.\nDefinition mixed_abs_tol : Q := {_q(tol['abs_tol'])}.\n"
+               f"Definition probs_accept (p : list Q) : bool :=\n  forallb (fun x => Qle_bool 0 x) p && forallb (fun x => Qle_bool x 1) p\n"
+               f"  && qisclose (qsum p) 1 mixed_rel_tol mixed_abs_tol.\n")
+
+    # ---- gates/util.check_u2 (shape part)
+    rel = "qclib/gates/util.py"
+    cb = _body(_find_func(load(rel), None, "check_u2", rel))
+    tests = [ast.unparse(x.test) if isinstance(x, ast.If) and _raises(x.body) and not x.orelse else None for x in cb]
+    if tests != ["matrix.shape != (2, 2)", "not np.allclose(matrix @ np.conj(matrix.T), [[1.0, 0.0], [0.0, 1.0]])"]:
+        raise Unsupported(f"{rel}: check_u2 no longer has the expected shape: {tests}")
+    out.append("(* gates/util.check_u2: shape must be (2,2); unitarity is the numerical contract np.allclose(M M^dagger, I) *)\n"
+               "Definition u2_shape_accept (rows cols : N) : bool := (rows =? 2)%N && (cols =? 2)%N.\n")
+    return "\n".join(out)
+
+
+SPECIAL = {"Gen_validate": gen_validate}
+
+
 def generate(name):
+    if name in SPECIAL:
+        return SPECIAL[name]()
     src, kw, groups = SPECS[name]
     tr = Translator(src, **kw)
     # drop leading statements that only bind parameters we pass explicitly (e.g. n = len(x))
@@ -542,7 +690,7 @@ def regenerate(names=None):
     it defines nothing, so every theorem about it breaks."""
     from harness.coqtool import write_if_changed
     fails = {}
-    for name in (names or SPECS):
+    for name in (names or list(SPECS) + list(SPECIAL)):
         path = os.path.join(THEORIES, name + ".v")
         try:
             text = generate(name)
@@ -558,7 +706,7 @@ def regenerate(names=None):
 
 if __name__ == "__main__":
     import sys
-    for n in (sys.argv[1:] or SPECS):
+    for n in (sys.argv[1:] or list(SPECS) + list(SPECIAL)):
         try:
             print(generate(n))
         except Unsupported as ex:
